@@ -260,10 +260,15 @@ func (mc *monitoredConn) notify(state connectivity.State) {
 	}
 	// Inform all multiendpoints.
 	mc.gme.mu.RLock()
+	defer mc.gme.mu.RUnlock()
+	if mc.gme.pools[mc.endpoint] != mc {
+		// This pool was removed (and maybe replaced by a new pool of the same endpoint) while its
+		// monitor was about to report: it does not speak for the endpoint any more.
+		return
+	}
 	for _, me := range mc.gme.mes {
 		me.SetEndpointAvailability(mc.endpoint, state == connectivity.Ready)
 	}
-	mc.gme.mu.RUnlock()
 }
 
 func (mc *monitoredConn) monitor(ctx context.Context) {
